@@ -359,7 +359,7 @@ template <typename H>
 static void addBfsUnit(const std::string & name, int minTier, Cfg cfg, int dq, int dt) {
 	Unit u; u.name = name; u.minTier = minTier;
 	u.run = [=](Ctx & ctx, UnitReport & rep, int tier) {
-		H h(ctx, cfg); BfsOptions o; o.maxDepth = tier ? dt : dq; Bfs b(ctx, o);
+		H h(ctx, cfg); BfsOptions o; o.keyIncludesLastOp = true; o.maxDepth = tier ? dt : dq; Bfs b(ctx, o);
 		b.run([&](Bfs & bb) { h.body(bb); }, [&]() { h.after(); });
 		fillBfsReport(rep, b.res); rep.str["config"] = fmt("%s filters<=%d listeners<=%d depth=%d", name.c_str(), cfg.maxFilters, cfg.maxListeners, o.maxDepth);
 	};
@@ -369,7 +369,7 @@ static void addBfsUnit(const std::string & name, int minTier, Cfg cfg, int dq, i
 template <typename H>
 static void addEnumUnit(const std::string & name) {
 	Unit u; u.name = name; u.minTier = 0;
-	u.run = [=](Ctx & ctx, UnitReport & rep, int) { H h(ctx); BfsOptions o; o.maxDepth = 1; Bfs b(ctx, o); b.run([&](Bfs & bb) { h.body(bb); }, nullptr); fillBfsReport(rep, b.res); rep.str["config"] = name + ": complete enumeration of a finite input domain"; };
+	u.run = [=](Ctx & ctx, UnitReport & rep, int) { H h(ctx); BfsOptions o; o.keyIncludesLastOp = true; o.maxDepth = 1; Bfs b(ctx, o); b.run([&](Bfs & bb) { h.body(bb); }, nullptr); fillBfsReport(rep, b.res); rep.str["config"] = name + ": complete enumeration of a finite input domain"; };
 	u.replay = [=](Ctx & ctx, const std::vector<int> & seq) { H h(ctx); replayBody(ctx, seq, [&](Bfs & bb) { h.body(bb); }, nullptr); };
 	units().push_back(u);
 }
